@@ -359,7 +359,7 @@ private:
     bool declaration();
     /** Parse optional label. */
     bool label(bool required = false, const std::string& kind = "");
-    int invariant();
+    int invariant(std::string& text, std::string& xpath);
     /** Parse optional committed tag. */
     bool committed();
     /** Parse optional urgent tag. */
@@ -604,7 +604,9 @@ bool XMLReader::label(bool required, const std::string& s_kind)
     return false;
 }
 
-int XMLReader::invariant()
+/** Reads one label of a location without parsing it: returns 0 for an invariant, 1 for an
+ * exponential rate (text and XPath of the label are stored) and -1 for anything else. */
+int XMLReader::invariant(std::string& text, std::string& xpath)
 {
     int result = -1;
     if (begin(tag_t::LABEL)) {
@@ -613,18 +615,16 @@ int XMLReader::invariant()
         if (kind == nullptr)
             throw TypeException{"A label must have a \"kind\" attribute"};
         read();
-        /* Read the text and push it to the parser. */
+        /* Read the text. */
         if (getNodeType() == XML_READER_TYPE_TEXT) {
-            const xmlChar* text = xmlTextReaderConstValue(reader.get());
             auto kind_sv = std::string_view{kind};
-            // This is a terrible mess but it's too badly designed
-            // to fix at this moment.
-            if (kind_sv == "invariant") {
-                if (parse(text, S_INVARIANT) == 0)
-                    result = 0;
-            } else if (kind_sv == "exponentialrate") {
-                if (parse(text, S_EXPONENTIAL_RATE) == 0)
-                    result = 1;
+            if (kind_sv == "invariant")
+                result = 0;
+            else if (kind_sv == "exponentialrate")
+                result = 1;
+            if (result != -1) {
+                text = (const char*)xmlTextReaderConstValue(reader.get());
+                xpath = path.str();
             }
         }
         xmlFree(kind);
@@ -744,12 +744,31 @@ bool XMLReader::location()
                 throw TypeException{"Every location must have a unique id attribute value"};
             /* Get name of the location. */
             std::string l_name = name();
-            /* Read the invariant. */
+            /* Read the invariant and the exponential rate. The builder takes the rate and then
+             * the invariant from its expression stack when the location is added, so the
+             * invariant is parsed first whatever the order of the two labels. */
+            std::string inv_text, inv_path, rate_text, rate_path;
+            bool has_inv = false, has_rate = false;
             while (begin(tag_t::LABEL)) {
-                int res = invariant();
-                l_invariant |= res == 0;
-                l_exponentialRate |= res == 1;
+                std::string text, xpath;
+                switch (invariant(text, xpath)) {
+                case 0:
+                    inv_text = std::move(text);
+                    inv_path = std::move(xpath);
+                    has_inv = true;
+                    break;
+                case 1:
+                    rate_text = std::move(text);
+                    rate_path = std::move(xpath);
+                    has_rate = true;
+                    break;
+                default: break;
+                }
             }
+            if (has_inv)
+                l_invariant = parse_XTA(inv_text.c_str(), parser, newxta, S_INVARIANT, inv_path) == 0;
+            if (has_rate)
+                l_exponentialRate = parse_XTA(rate_text.c_str(), parser, newxta, S_EXPONENTIAL_RATE, rate_path) == 0;
             /* Is the location urgent or committed? */
             bool l_urgent = urgent();
             bool l_committed = committed();
